@@ -19,7 +19,7 @@ type c03 struct{}
 func (c03) ID() string    { return "C03" }
 func (c03) Level() string { return "exploration" }
 func (c03) Rule() string {
-	return "grammar products, each complete within its domain: ports [IP:][HOST[-HOST]:]CONTAINER[-CONTAINER][/PROTO] (4 IPs x 5 host forms x 3 container forms x 4 protocols + bare integers; ranges starting at 15 (container, host) bases (quick: reduced IP / protocol forms off the first base; thorough: full product) incl. every decimal-width boundary 9|10 .. 9999|10000); volumes [SOURCE:]TARGET[:MODE,...] (9 sources x 3 targets x mode sets of <=2 from 8); devices SRC[:DST[:PERM]]; secrets/configs by name; build string; env_file / label_file string, list, long; depends_on and networks lists; extends string; healthcheck test string; external {name}; KEY[=VALUE] lists vs mappings (6 value kinds x 4 key shapes: plain, x- prefixed, dotted, mixed) at 8 service positions and on the labels of every resource kind; string-or-list at 6 positions; command/entrypoint strings over <=3 (thorough: 4) words from 10 word shapes (plain, single/double quoted, escaped blank, empty, words containing no-break space, ideographic space, vertical tab, form feed); durations and byte sizes against numeric literals; each short form loaded next to the reference long form written from the specification grammar and compared on the whole project; near misses must be errors. distinct = distinct short-form strings"
+	return "grammar products, each complete within its domain: ports [IP:][HOST[-HOST]:]CONTAINER[-CONTAINER][/PROTO] (4 IPs x 5 host forms x 3 container forms x 4 protocols + bare integers; ranges starting at 15 (container, host) bases (quick: reduced IP / protocol forms off the first base; thorough: full product) incl. every decimal-width boundary 9|10 .. 9999|10000); volumes [SOURCE:]TARGET[:MODE,...] (9 sources x 3 targets x mode sets of <=2 from 8); devices SRC[:DST[:PERM]]; secrets/configs by name; build string; env_file / label_file string, list, long; depends_on and networks lists; extra_hosts and build.extra_hosts: every list spelling (= and :, 4 address forms incl. bracketed IPv6) against every mapping spelling (scalar and list value); extends string; healthcheck test string; external {name}; KEY[=VALUE] lists vs mappings (6 value kinds x 4 key shapes: plain, x- prefixed, dotted, mixed) at 8 service positions and on the labels of every resource kind; string-or-list at 6 positions; command/entrypoint strings over <=3 (thorough: 4) words from 10 word shapes (plain, single/double quoted, escaped blank, empty, words containing no-break space, ideographic space, vertical tab, form feed); durations and byte sizes against numeric literals; each short form loaded next to the reference long form written from the specification grammar and compared on the whole project; near misses must be errors. distinct = distinct short-form strings"
 }
 func (c03) Assumptions() []string {
 	return []string{
